@@ -584,6 +584,8 @@ class _LinAlg:
                 break
         if vals is not None:
             a00, a10, a11 = vals
+            if not (a00 > 0 and a00 * a11 - a10 * a10 > 0):
+                raise real_np.linalg.LinAlgError("Matrix is not positive definite")
             r00 = _rat_sqrt(a00)
             if r00 is not None and r00 > 0:
                 r10 = a10 / r00
@@ -591,13 +593,14 @@ class _LinAlg:
                 if r11 is not None and r11 > 0:
                     return Mat2([[symx.rconst(r00), 0.0], [symx.rconst(r10) if r10 != 0 else 0.0, symx.rconst(r11)]])
         c = symx.ctx()
+        # numpy raises LinAlgError unless the matrix is positive definite
+        m00, m10, m11 = _z(m[0][0]), _z(m[1][0]), _z(m[1][1])
+        if not c.decide(z3.And(m00 > 0, m00 * m11 - m10 * m10 > 0)):
+            raise real_np.linalg.LinAlgError("Matrix is not positive definite")
         c.fresh_n += 1
         k = c.fresh_n
         l00, l10, l11 = z3.Real(f"_L00_{k}"), z3.Real(f"_L10_{k}"), z3.Real(f"_L11_{k}")
-        c.add(z3.And(l00 > 0, l11 > 0))
-        c.add(l00 * l00 == _z(m[0][0]))
-        c.add(l10 * l00 == _z(m[1][0]))
-        c.add(l10 * l10 + l11 * l11 == _z(m[1][1]))
+        c.add_axiom(z3.And(l00 > 0, l11 > 0, l00 * l00 == m00, l10 * l00 == m10, l10 * l10 + l11 * l11 == m11))
         return Mat2([[SymReal(l00), 0.0], [SymReal(l10), SymReal(l11)]])
 
     @staticmethod
